@@ -45,6 +45,9 @@ func (k c11Case) pixels() []byte {
 		return p
 	}
 	rng := NewRand(k.Seed)
+	if k.Content == "dcfib" {
+		return dcFibMosaic(rng, k.W, k.H, k.Comps, k.Codec == "ext12")
+	}
 	if k.Codec == "ext12" {
 		return gen12(rng, k.Content, k.W, k.H)
 	}
@@ -73,7 +76,7 @@ func c11Cases(c *Ctx) []c11Case {
 			for _, n := range contents12 {
 				ok = ok || n == content
 			}
-			if !ok && content != "fib" {
+			if !ok && content != "fib" && content != "dcfib" {
 				content = "noise"
 			}
 		} else if content == "noise8" {
@@ -133,6 +136,18 @@ func c11Cases(c *Ctx) []c11Case {
 	for ci := range c11Codecs {
 		_, fw, fh, fq := fibImage(c11Codecs[ci].codec == "ext12")
 		add(ci, fw, fh, fq, "fib")
+	}
+	// (3b') flat 8x8 tiles whose DC steps follow a Fibonacci profile (many tiny steps, a handful of
+	// big ones, one full-range step): rare DC-difference categories get the longest codes of the
+	// optimised DC table, so "code + magnitude bits" reaches its maximum total length
+	for ci := range c11Codecs {
+		n := c.N(6, 40)
+		if c11Codecs[ci].codec == "ext12" {
+			n = c.N(32, 120)
+		}
+		for rep := 0; rep < n; rep++ {
+			add(ci, 256, 256, []int{100, 100, 98, 100, 96, 99}[rep%6], "dcfib")
+		}
 	}
 	// (3c) sparse coefficient patterns: single DCT basis functions (all 63 AC positions in one
 	// 64x64 image), pairs with row/column 7, row- and column-constant 8-periodic stripes; at
@@ -337,4 +352,60 @@ func c11One(c *Ctx, k c11Case, sample bool) {
 			c.R.Fail("oracle", "c11_q100", cc+":q100:grey10", fmt.Sprintf("quality 100 greyscale sample off by %d > 10", mx), in)
 		}
 	}
+}
+
+// dcFibMosaic: w x h image (multiples of 8) of flat 8x8 tiles; the tile-to-tile steps are 2^k grey
+// levels with Fibonacci-like frequencies (k = top..0: 1, 2, 3, 5, 8, ... tiles), shuffled.
+func dcFibMosaic(rng *Rand, w, h, comps int, twelve bool) []byte {
+	bw, bh := w/8, h/8
+	top, maxv := 7, 255
+	if twelve {
+		top, maxv = 11, 4095
+	}
+	var seq []int
+	a, b := 1, 2
+	for k := top; k >= 0; k-- {
+		for i := 0; i < a; i++ {
+			seq = append(seq, 1<<uint(k))
+		}
+		a, b = b, a+b
+	}
+	for len(seq) < bw*bh-1 {
+		seq = append(seq, 0)
+	}
+	seq = seq[:bw*bh-1]
+	for i := len(seq) - 1; i > 0; i-- {
+		j := rng.Intn(i + 1)
+		seq[i], seq[j] = seq[j], seq[i]
+	}
+	vals := make([]int, 0, bw*bh)
+	v := (maxv + 1) / 2
+	vals = append(vals, v)
+	for _, m := range seq {
+		if v+m <= maxv {
+			v += m
+		} else {
+			v -= m
+		}
+		vals = append(vals, v)
+	}
+	bps := 1
+	if twelve {
+		bps = 2
+	}
+	out := make([]byte, w*h*comps*bps)
+	for y := 0; y < h; y++ {
+		for x := 0; x < w; x++ {
+			val := vals[(y/8)*bw+x/8]
+			for cpt := 0; cpt < comps; cpt++ {
+				i := (y*w+x)*comps + cpt
+				if twelve {
+					out[2*i], out[2*i+1] = byte(val), byte(val>>8)
+				} else {
+					out[i] = byte(val)
+				}
+			}
+		}
+	}
+	return out
 }
